@@ -18,6 +18,9 @@ LEVEL_TEXT = ('Seeded search over mutation/iteration histories: member additions
 LEVEL_NOTE = ('Trusted: uncached listing of each member rule (C01 not judged); Python set/sorted as the set algebra. Single-threaded histories only, as the property states.')
 TECHNIQUE = ('deterministic simulation of mutation/iteration histories against a set-algebra reference model')
 
+REAL = ['dateutil.rrule (rrule, rruleset) from /repo/src', 'CPython 3.12 generators, heapq']
+STUB = ['the cache mutex (SimLock)', 'iterator scheduling: the generated operation order decides which live iterator advances and where mutations land']
+
 CLASSES = {
     "hist": dict(quick=30000, thorough=800000, timeout=30),
 }
